@@ -663,7 +663,9 @@ func runHistory(h history) runOut {
 	w := newWorld(h)
 	out := runOut{counts: map[string]int{}}
 	ref := &refMap{sess: map[string]*refSess{}, routes: map[[3]string]string{}}
-	fail := func(key, f string, a ...interface{}) { out.fails = append(out.fails, failure{key, fmt.Sprintf(f, a...)}) }
+	fail := func(key, f string, a ...interface{}) {
+		out.fails = append(out.fails, failure{key, fmt.Sprintf(f, a...)})
+	}
 	tcps := map[int]*tcpServer{}
 	defer func() {
 		for _, t := range tcps {
